@@ -178,6 +178,33 @@ def run(ctx):
                                       with_noise=dtwmon.tolist(r2), **wit)
                 except Exception as e:
                     ctx.violation("exception", fn="dba(noise)", use_c=use_c, error=repr(e)[:300], **wit)
+            # the default initial average (c=None: "first selected series") is part of "all initial averages":
+            # the whole loop, started without an explicit average, must not look at unselected series either
+            for use_c in res:
+                try:
+                    ctx.current("dba_loop c=None noise %r" % (wit,))
+                    import random as _pyr
+                    nis = rng.choice([None, None, 1, 2, 3])      # "good" initial average picked among sampled selected series
+                    rs_ = rng.randrange(10 ** 6)
+                    _pyr.seed(rs_)
+                    o1 = np.asarray(dtw_barycenter.dba_loop(data, c=None, max_it=2, thr=None, mask=mask.copy(), use_c=use_c,
+                                                            nb_initial_samples=nis, **kw))
+                    _pyr.seed(rs_)
+                    o2 = np.asarray(dtw_barycenter.dba_loop(data2, c=None, max_it=2, thr=None, mask=mask.copy(), use_c=use_c,
+                                                            nb_initial_samples=nis, **kw))
+                    ctx.count("default_average_nb_initial_samples:%r" % (nis,))
+                    ctx.count("mask_independence_checks_default_average")
+                    if o1.shape != o2.shape or not np.array_equal(o1, o2):
+                        ctx.violation("unselected-series-influence-result", fn="dba_loop(c=None)", use_c=use_c, nb_initial_samples=nis,
+                                      random_seed=rs_, result=dtwmon.tolist(o1), with_noise=dtwmon.tolist(o2), **wit)
+                    if not use_c:
+                        p1 = np.asarray(dtw_barycenter.dba(data, None, mask=mask.copy(), use_c=False, **kw))
+                        p2 = np.asarray(dtw_barycenter.dba(data2, None, mask=mask.copy(), use_c=False, **kw))
+                        if p1.shape != p2.shape or not np.array_equal(p1, p2):
+                            ctx.violation("unselected-series-influence-result", fn="dba(c=None)", use_c=use_c,
+                                          result=dtwmon.tolist(p1), with_noise=dtwmon.tolist(p2), **wit)
+                except Exception as e:
+                    ctx.violation("exception", fn="dba_loop(c=None, noise)", use_c=use_c, error=repr(e)[:300], **wit)
         # objective does not increase (squared euclidean)
         if kw.get("inner_dist", "squared euclidean") == "squared euclidean":
             dist = dtw_ndim.distance if nd else dtw.distance
